@@ -1050,6 +1050,8 @@ decl(struct scope *s, struct func *f)
 			if (d->linkage == LINKNONE && !(sc & SCSTATIC)) {
 				d->u.obj.storage = SDAUTO;
 			} else {
+				if (d->value && (d->u.obj.storage == SDTHREAD) != !!(sc & SCTHREADLOCAL))
+					error(&tok.loc, "object '%s' redeclared with different storage duration", name);
 				d->u.obj.storage = sc & SCTHREADLOCAL ? SDTHREAD : SDSTATIC;
 				if (t->prop & PROPVM)
 					error(&tok.loc, "object '%s' with %s storage duration cannot have variably modified type", name, d->u.obj.storage == SDSTATIC ? "static" : "thread");
